@@ -189,7 +189,10 @@ class C08(core.PropBase):
     # rejected with ExpressionError (fix 4e7d04b), one just below the limit must be accepted
     HUGE = [("0-9223372036854775807", "ExpressionError"), ("-9223372036854775808-2", "ExpressionError"), ("1-9223372036854775807", "accepted"),
             ("1-9223372036854775807,-5--1", "ExpressionError"), ("9223372036854775807-0:-1", "ExpressionError"), ("0-18446744073709551616:2", "ExpressionError"),
-            ("0-18446744073709551612:2", "accepted"), ("0-18446744073709551614:2", "ExpressionError"), ("5-5,0-9223372036854775807", "ExpressionError")]
+            ("0-18446744073709551612:2", "accepted"), ("0-18446744073709551614:2", "ExpressionError"), ("5-5,0-9223372036854775807", "ExpressionError"),
+            # numbers with more digits than CPython's int() reads (4300): refused, and refused as ExpressionError (fix 1f77c5b)
+            ("9" * 4301, "ExpressionError"), ("-" + "9" * 4301, "ExpressionError"), ("1," + "9" * 4301, "ExpressionError"), ("1-" + "9" * 4301, "ExpressionError"),
+            ("1-3:" + "1" * 4301, "ExpressionError"), ("9" * 4300, "accepted"), (" " * 5000 + "7", "accepted")]
 
     def corpus_cases(self):
         return [{"s": s} for s in CORPUS] + [{"s": s, "huge": want} for s, want in self.HUGE]
